@@ -25,10 +25,12 @@ TraceReset ==
   /\ pull' = PullInit /\ clock' = 0 /\ nticks' = 0 /\ down' = FALSE /\ act' = [name |-> "init"]
   /\ push' = [t \in PushTargets |-> PIdle] /\ patt' = 0
   /\ idl' = [x \in Sessions |-> "new"] /\ nsweeps' = 0
+  /\ pl' = [x \in Players |-> PlIdle]
   /\ failed' = FALSE
 
 PushRest == patt' = patt /\ UNCHANGED <<grp, inp, owner, ss, closed, nh, pull, clock, nticks>>
 IsPushEv(n) == n \in {"PushOk", "PushFail", "PushEnd"}
+IsPlayerEv(n) == n \in {"PlayerAsk", "PlayerBye"}
 
 Do(name, e) ==
   CASE name = "NewPub"  -> NewPub(e.x)
@@ -42,6 +44,9 @@ Do(name, e) ==
     [] name = "HlsPoll"   -> HlsPoll(e.x) /\ act'.how = e.how
     [] name = "HlsExpire" -> HlsExpire(e.x)
     [] name = "HlsLinger" -> HlsLinger
+    [] name = "HlsBlacklist" -> HlsBlacklist(e.x)
+    [] name = "PlayerAsk" -> PlayerAsk(e.x)
+    [] name = "PlayerBye" -> PlayerBye(e.x)
     [] name = "Kick"    -> Kick(e.x)
     [] name = "Probe"   -> Probe(e.x)
     [] name = "Tick"    -> Tick
@@ -72,17 +77,21 @@ TraceStep ==
      IF failed THEN UNCHANGED vars /\ failed' = failed
      ELSE /\ Do(e.ev, e)
           /\ (e.ev # "Shutdown" => down' = down)
-          /\ ((~IsPushEv(e.ev) /\ e.ev \notin {"Shutdown", "Sweep"}) => (PushFx /\ IdlFx /\ nsweeps' = nsweeps))
-          /\ ((IsPushEv(e.ev) \/ e.ev = "Shutdown") => UNCHANGED <<idl, nsweeps>>)
+          /\ ((~IsPushEv(e.ev) /\ ~IsPlayerEv(e.ev) /\ e.ev \notin {"Shutdown", "Sweep"}) => (PushFx /\ IdlFx /\ PlayFx /\ nsweeps' = nsweeps))
+          /\ ((IsPushEv(e.ev) \/ e.ev = "Shutdown") => UNCHANGED <<idl, nsweeps, pl>>)
+          /\ (IsPlayerEv(e.ev) => UNCHANGED <<push, patt, idl, nsweeps>>)
+          /\ (e.ev = "Sweep" => UNCHANGED pl)
           /\ LET good == /\ act'.obs = e.obs
                          /\ ("pipe" \in DOMAIN e => e.pipe = (IF owner' = "" THEN <<>> ELSE PipeComps))
                          /\ ("filesOk" \in DOMAIN e => e.filesOk)
                          /\ ("pa" \in DOMAIN e => e.pa = patt' /\ e.pn = NAtt(push'))   \* push attempts seen / sessions attached
                          /\ ("orph" \in DOMAIN e => e.orph = 0)   \* connections orphaned by the removal of the group are closed when they complete
                          /\ ("plen" \in DOMAIN e => e.plen = act'.plen)                   \* URL parameters forwarded in full
+                         \* C03: whose description every RTSP player holds after the step ("" = none: not asked, parked, gone)
+                         /\ ("desc" \in DOMAIN e => \A x \in Players : e.desc[x] = pl'[x].d)
                          /\ (("stat" \in DOMAIN e /\ ~down') =>     \* (after a shutdown the listing is moot)
                                /\ e.stat.exists = grp'
-                               /\ (grp' => SeqSet(e.stat.listed) = Listed(inp', ss'))
+                               /\ (grp' => SeqSet(e.stat.listed) = Listed(inp', ss') \cup {x \in Players : pl'[x].s \in {"parked", "got"}})
                                /\ ("pull" \in DOMAIN e.stat => e.stat.pull = (inp' = "pull"))   \* StatPull: the attached pull session, and only that
                                /\ Len(e.stat.listed) = Cardinality(SeqSet(e.stat.listed)))
              IN /\ failed' = ~good
